@@ -94,6 +94,22 @@ fn run_case(line: &str, fails: &mut Vec<(String, String)>) -> String {
                             break;
                         }
                     }
+                    // a stream that the consumer drops before it is exhausted (an early stop, a sink that fails): after 0, 1, 2 tokens
+                    for k in 0..3usize {
+                        {
+                            let mut st = tk.token_stream("あいう えお。0123 abc漢字漢字\nかきくけこ");
+                            for _ in 0..k {
+                                if !st.advance() {
+                                    break;
+                                }
+                            }
+                        }
+                        let again = collect(&mut tk, &text);
+                        if again != toks {
+                            fails.push(("C16".into(), format!("text {text:?} wsconst {ws:?}: a tokenizer whose previous stream was dropped after {k} tokens yields {again:?}, a new one {toks:?}")));
+                            break;
+                        }
+                    }
                     let _ = collect(&mut cl, "x\0");
                     if collect(&mut cl, &text) != toks {
                         fails.push(("C16".into(), format!("text {text:?} wsconst {ws:?}: a clone of the tokenizer that had processed a text with NUL before yields other tokens than a new one")));
